@@ -373,6 +373,14 @@ def compare(impl, model):
                 for k in gf:
                     if k not in fs:
                         fails.append(("e2e/recs/extra-field", "query %d event %s: field %s=%s was never sent" % (qi, vid, k, gf[k])))
+        elif kind == "tc":
+            # timechart span=<n>s count (suite segfault): bucket start -> number of events, exact
+            def tcrows(s):
+                return dict(r.split("=", 1) for r in s.split(",") if "=" in r)
+            er, gr = tcrows(mb.get("rows", "")), tcrows(ia.get("rows", ""))
+            if er != gr:
+                keys = sorted(set(er) | set(gr))
+                fails.append(("e2e/timechart/plain", "query %d: (bucket, got, expected) %s" % (qi, [(k, gr.get(k), er.get(k)) for k in keys if gr.get(k) != er.get(k)][:6])))
         elif kind == "stats":
             if int(mb.get("nmay", 0)) > 0:
                 continue
